@@ -439,7 +439,18 @@ func (ex *Exec) copySlice(st *State, dst, src *SliceV, pos token.Pos) (*Term, bo
 		bound = hi.Int64()
 	}
 	if bound < 0 || bound > 4096 {
-		panic(ex.unsupported("copy with unbounded symbolic length between non-symbolic arrays at %s", ex.posString(pos)))
+		desc := func(p *Ptr) string {
+			out := ""
+			for _, al := range p.Alts {
+				if al.Obj == nil {
+					out += "nil "
+				} else {
+					out += fmt.Sprintf("%s(kind %d, path %d) ", al.Obj.Site, al.Obj.Kind, len(al.Path))
+				}
+			}
+			return out
+		}
+		panic(ex.unsupported("copy with unbounded symbolic length between non-symbolic arrays at %s: dst=[%s] src=[%s]", ex.posString(pos), desc(dstB), desc(srcB)))
 	}
 	saveG := st.G
 	vals := make([]Value, 0, bound)
